@@ -124,7 +124,7 @@ class Replayer:
                 m.agent(h["id"]).v = h["v"] / 2.0
             elif op == "Send":
                 m.enqueue_event(m._make_event(h, None))
-            elif op in ("Plan", "PlanDel", "PlanNew", "PlanSet"):
+            elif op in ("Plan", "PlanDel", "PlanNew", "PlanSet", "PlanEnd"):
                 m._plan.append(h)
             elif op == "RunStep":
                 m._calls, m._handled, m._times = [], [], []
